@@ -124,8 +124,23 @@ class InstLayer:
         return '<InstLayer %s>' % self.__name__
 
 
+HOOK_ACTIONS = {}     # (layer, hook, k-th call) -> [thread actions]
+_hook_calls = {}
+
+
+def reset_hook_actions(actions=None):
+    HOOK_ACTIONS.clear()
+    HOOK_ACTIONS.update(actions or {})
+    _hook_calls.clear()
+
+
 def _hook_body(lname, hook, faults):
     emit('L', lname, hook, '>')
+    if HOOK_ACTIONS:
+        k = _hook_calls.get((lname, hook), 0)
+        _hook_calls[(lname, hook)] = k + 1
+        for act in HOOK_ACTIONS.get((lname, hook, k), ()):
+            thread_action(act)
     exc = faults.get((lname, hook))
     if exc:
         emit('L', lname, hook, '!', exc)
@@ -170,6 +185,9 @@ THREADS = {}      # tid -> dict(ev=Event, done=Event, ident=int, name=str)
 def _thread_main(tid):
     rec = THREADS[tid]
     rec['ident'] = threading.get_ident()
+    if rec.get('touch'):
+        # what e.g. the logging module does in any thread
+        threading.current_thread()
     rec['up'].set()
     rec['ev'].wait(30)
     rec['done'].set()
@@ -188,11 +206,19 @@ def _wait_gone(ident, timeout=5.0):
 def thread_action(act):
     import _thread
     kind = act[0]
+    if VTABLE is not None:
+        if kind == 'start':
+            _, api, name, tid, blocked = act[:5]
+            VTABLE.start(api, name, tid, blocked, len(act) > 5 and act[5])
+        else:
+            VTABLE.release(act[1])
+        return
     if kind == 'start':
-        _, api, name, tid, blocked = act
+        _, api, name, tid, blocked = act[:5]
         rec = {'ev': threading.Event(), 'done': threading.Event(),
                'up': threading.Event(), 'name': name, 'api': api,
-               'ident': None, 'thread': None}
+               'ident': None, 'thread': None,
+               'touch': len(act) > 5 and act[5]}
         if not blocked:
             rec['ev'].set()
         THREADS[tid] = rec
@@ -545,3 +571,130 @@ def test_id(t, modname=None):
     modname = modname or MOD
     cname = t.get('cls') or ('T_' + t['n'])
     return 'test_%s (%s.%s.test_%s)' % (t['n'], modname, cname, t['n'])
+
+
+# ------------------------------------------------------- virtual thread table
+# C19 owns the environment the runner's thread bookkeeping looks at: which
+# thread idents are running (sys._current_frames), what ``threading`` knows
+# (threading.enumerate) and - the part the OS decides - whether a new thread
+# gets a fresh ident or the ident of a thread that has just ended.
+
+class VThread:
+    """What threading.enumerate() returns for a virtual thread."""
+
+    def __init__(self, ident, name, dummy=False):
+        self.ident = ident
+        self.name = name
+        self._alive = True
+        self._dummy = dummy      # threading._DummyThread of a _thread thread
+        self.daemon = True
+
+    def is_alive(self):
+        # CPython 3.12: a _DummyThread reports alive for ever
+        return True if self._dummy else self._alive
+
+    def __repr__(self):
+        return '<%s(%s, started daemon %d)>' % (
+            '_DummyThread' if self._dummy else 'Thread', self.name, self.ident)
+
+
+class VTable:
+    def __init__(self, policy):
+        self.policy = policy          # 'fresh' | 'recycle'
+        self.next = 1000001
+        self.free = []                # idents of ended threads, most recent last
+        self.alive = {}               # ident -> tid
+        self.known = {}               # ident -> VThread (threading's registry)
+        self.recs = {}                # tid -> rec
+        self.reused = 0
+
+    def _ident(self):
+        if self.policy == 'recycle' and self.free:
+            self.reused += 1
+            return self.free.pop()
+        self.next += 1
+        return self.next
+
+    def start(self, api, name, tid, blocked, touch):
+        ident = self._ident()
+        rec = {'ident': ident, 'name': name, 'api': api, 'blocked': blocked,
+               'touch': touch, 'ended': False}
+        self.recs[tid] = rec
+        self.alive[ident] = tid
+        if api == 'threading':
+            self.known[ident] = VThread(ident, name or 'Thread-%s' % tid)
+        elif touch:
+            self.known[ident] = VThread(ident, 'Dummy-%s' % tid, dummy=True)
+        if not blocked:
+            self._end(tid)
+        emit('th', 'started', tid, ident, api, name, blocked)
+
+    def _end(self, tid):
+        rec = self.recs[tid]
+        if rec['ended']:
+            return
+        rec['ended'] = True
+        ident = rec['ident']
+        self.alive.pop(ident, None)
+        th = self.known.get(ident)
+        if th is not None:
+            if th._dummy:
+                pass                      # stays registered, "alive"
+            else:
+                th._alive = False
+                del self.known[ident]
+        self.free.append(ident)
+
+    def release(self, tid):
+        rec = self.recs.get(tid)
+        if rec is None or rec['ended']:
+            return
+        self._end(tid)
+        emit('th', 'released', tid, rec['ident'])
+
+    # ---- what the runner sees
+    def current_frames(self):
+        d = dict(sys._current_frames())
+        fr = sys._getframe()
+        for ident in self.alive:
+            d[ident] = fr
+        return d
+
+    def enumerate(self):
+        out = list(threading.enumerate())
+        # a recycled ident now belongs to the new thread
+        for ident, th in self.known.items():
+            out.append(th)
+        return out
+
+
+class _VThreadingShim:
+    def __init__(self, table):
+        self._t = table
+
+    def enumerate(self):
+        return self._t.enumerate()
+
+    def __getattr__(self, k):
+        return getattr(threading, k)
+
+
+VTABLE = None
+
+
+def install_vthreads(policy):
+    """Point zope.testrunner.threadsupport at a virtual thread table."""
+    global VTABLE
+    import zope.testrunner.threadsupport as TS
+    VTABLE = VTable(policy)
+    saved = (TS.current_frames, TS.threading)
+    TS.current_frames = VTABLE.current_frames
+    TS.threading = _VThreadingShim(VTABLE)
+    return saved
+
+
+def uninstall_vthreads(saved):
+    global VTABLE
+    import zope.testrunner.threadsupport as TS
+    TS.current_frames, TS.threading = saved
+    VTABLE = None
